@@ -1,3 +1,4 @@
+// g++ -std=c++17 -O1 -I. -I/usr/include/eigen3 demo.cpp -o demo
 // reproducer: math::inner_product of complex rhs blocks is conjugate-linear in the SECOND argument for static_matrix (and for
 // complex scalars: x * conj(y)), but in the FIRST argument for Eigen blocks (value_type/eigen.hpp: x.adjoint() * y)
 #include <complex>
